@@ -6,6 +6,6 @@ CONSTANTS Tables = {"a", "b"}
           MaxItems = 2
           MaxBatch = 2
           MaxCrashes = 1
-          TailBeyondSync = FALSE
-INVARIANTS NeverFails Aligned ReadableCorrect Durable Monotone IndexOK
+          TailBeyondSync = TRUE
+INVARIANTS FailsOnlyKnown Aligned ReadableCorrect Durable Monotone IndexOK
 CHECK_DEADLOCK FALSE
